@@ -85,6 +85,32 @@ class TableCacheWorld:
                 self._foreign = os.path.join(out, "parsetab.py")
         return self._foreign
 
+    def _lextab_file(self):
+        """A foreign optimized-lexer table (tablegen.py lextab); False if it cannot be produced."""
+        if getattr(self, "_lextab", None) is None:
+            tmp_tree = os.path.join(self.workroot, "lgen")
+            shutil.rmtree(tmp_tree, ignore_errors=True)
+            os.makedirs(tmp_tree)
+            shutil.copytree(self.pkg, os.path.join(tmp_tree, "simple_ddl_parser"), ignore=shutil.ignore_patterns("__pycache__", "lextab.py"))
+            shutil.copyfile(self.valid_file, os.path.join(tmp_tree, "simple_ddl_parser", "parsetab.py"))
+            out = os.path.join(self.states_dir, "lextab")
+            r = subprocess.run([core.PY, os.path.join(core.HERE, "tablegen.py"), tmp_tree, "lextab", out],
+                               stdout=subprocess.PIPE, stderr=subprocess.DEVNULL, text=True, timeout=300, env=core.worker_env(0))
+            shutil.rmtree(tmp_tree, ignore_errors=True)
+            p = os.path.join(out, "lextab.py")
+            self._lextab = p if (r.returncode == 0 and os.path.exists(p)) else False
+        return self._lextab
+
+    def plant_artefacts(self):
+        """Leftovers of an older release in the package directory: an optimized-lexer table of another lexer and a
+        parser.out.  Nothing in the declared behaviour reads them."""
+        lt = self._lextab_file()
+        if lt:
+            shutil.copyfile(lt, os.path.join(self.pkg, "lextab.py"))
+        with open(os.path.join(self.pkg, "parser.out"), "w") as f:
+            f.write("Created by PLY version 3.4 (http://www.dabeaz.com/ply)\n\nGrammar\n\nRule 0     S' -> expr\n")
+        return bool(lt)
+
     def set_state(self, state):
         if state == "keep":
             return
@@ -136,12 +162,12 @@ class TableCacheWorld:
             f.write(new)
 
     def _incarnate(self, idxs, write_fault, hashseed, want=None, pyflags=(), force_optimize=False, crash_at=None, subclass=None,
-                   overlaps=(), sequential=False):
+                   overlaps=(), sequential=False, entry=None):
         shutil.rmtree(os.path.join(self.pkg, "__pycache__"), ignore_errors=True)
         job = {"items": [self.W[i] for i in idxs], "write_fault": write_fault, "want_outcomes": want or [],
                "force_optimize": force_optimize, "crash_at": crash_at, "subclass": subclass,
                "reference_table": None if (force_optimize or crash_at) else self.valid_file,
-               "overlaps": [[self.W[i] for i in self.overlap_groups[g]] for g in overlaps], "sequential": sequential}
+               "overlaps": [[self.W[i] for i in self.overlap_groups[g]] for g in overlaps], "sequential": sequential, "entry": entry}
         r = subprocess.run([core.PY] + list(pyflags) + [os.path.join(core.HERE, "incarnation.py"), self.tree], input=json.dumps(job),
                            stdout=subprocess.PIPE, stderr=subprocess.DEVNULL, text=True, timeout=900,
                            env=core.worker_env(hashseed), cwd=self.workroot)
@@ -198,6 +224,8 @@ class TableCacheWorld:
                    "items": sorted(rw.sample(self.small, k))}
             if not wf and rf.random() < 0.15:
                 one["crash_at"] = rf.choice(["regen_start", "table_write"])
+            if rf.random() < 0.15:
+                one["artefacts"] = True
             inc.append(one)
         return {"world": "tablecache", "prop": "C20", "seed": seed, "swarm": swarm, "incarnations": inc}
 
@@ -213,9 +241,9 @@ class TableCacheWorld:
         # would overwrite
         for inc in trace["incarnations"]:
             if inc.get("sequential"):
-                key = core.digest_of(inc["items"])
+                key = core.digest_of([inc["items"], inc.get("entry")])
                 if key not in self.seq_base:
-                    rb = self._incarnate(inc["items"], False, 0, sequential=True)
+                    rb = self._incarnate(inc["items"], False, 0, sequential=True, entry=inc.get("entry"))
                     self.seq_base[key] = dict(zip(inc["items"], rb.get("digests") or []))
                     self._reset_durable_state()
         log = core.EventLog(keep=keep_events)
@@ -231,13 +259,18 @@ class TableCacheWorld:
             eff = inc["state"] if inc["state"] != "keep" else "keep(" + prev + ")"
             valid_before = self._cache_valid_now()
             before_files = set(os.listdir(self.pkg))
-            ov = [] if inc.get("crash_at") else [(i + len(inc["items"])) % len(self.overlap_groups), (i + 3 + inc["items"][0]) % len(self.overlap_groups)]
+            ov = [] if (inc.get("crash_at") or inc.get("entry")) else [(i + len(inc["items"])) % len(self.overlap_groups), (i + 3 + inc["items"][0]) % len(self.overlap_groups)]
+            if inc.get("artefacts"):
+                if self.plant_artefacts():
+                    stats["artefacts_planted"] += 1
             if inc["write_fault"]:
                 ov = ov[:1]           # every constructor regenerates there (0.5 s each)
             seq = bool(inc.get("sequential"))
-            base = self.seq_base[core.digest_of(inc["items"])] if seq else self.baseline
+            base = self.seq_base[core.digest_of([inc["items"], inc.get("entry")])] if seq else self.baseline
             r = self._incarnate(inc["items"], inc["write_fault"], inc.get("hashseed", 0), pyflags=inc.get("pyflags") or (),
-                                crash_at=inc.get("crash_at"), overlaps=ov, sequential=seq)
+                                crash_at=inc.get("crash_at"), overlaps=ov, sequential=seq, entry=inc.get("entry"))
+            if inc.get("entry"):
+                stats["entry_" + inc["entry"]] += 1
             stats["incarnations"] += 1
             if inc.get("crash_at"):
                 stats["crash_armed"] += 1
@@ -385,6 +418,12 @@ class TableCacheWorld:
                     cells.append((st, wf, c, ()))
             # the same state met by an optimising interpreter (python -O: __debug__ is False, asserts stripped)
             cells.append((st, False, 0, ("-O",)))
+        for st in ["valid", "missing", "stale_foreign", "old_version"]:
+            # the process is the command-line tool (first contact with the library = importing the CLI module)
+            cells.append((st, False, 2, ("cli",)))
+        for st in ["valid", "missing", "stale_foreign"]:
+            # leftovers of an older release next to the cache (foreign lextab.py, parser.out)
+            cells.append((st, False, 3, ("artefacts",)))
         for st in ["missing", "stale_benign", "stale_foreign", "old_version"]:
             for where in ("regen_start", "table_write"):
                 # killed while regenerating, then restarted on what was left behind
@@ -396,7 +435,14 @@ class TableCacheWorld:
             idxs = [i for i in range(len(self.W)) if i % nchunks == c]
             if wf:
                 idxs = [i for i in idxs if i in set(self.small)][::6]     # every constructor regenerates (0.5 s each)
-            if pyflags and pyflags[0] == "crash":
+            if pyflags and pyflags[0] == "cli":
+                plain = [i for i in idxs if i in set(self.small) and not self.W[i]["flags"] and set(self.W[i]["run"]) <= {"output_mode"}][:14]
+                trace = {"world": "tablecache", "prop": "C20", "seed": 0, "swarm": {"sweep": [st, wf, c, list(pyflags)]},
+                         "incarnations": [{"state": st, "write_fault": False, "hashseed": 0, "items": plain, "entry": "cli", "sequential": True}]}
+            elif pyflags and pyflags[0] == "artefacts":
+                trace = {"world": "tablecache", "prop": "C20", "seed": 0, "swarm": {"sweep": [st, wf, c, list(pyflags)]},
+                         "incarnations": [{"state": st, "write_fault": False, "hashseed": 0, "items": idxs, "artefacts": True, "sequential": True}]}
+            elif pyflags and pyflags[0] == "crash":
                 trace = {"world": "tablecache", "prop": "C20", "seed": 0, "swarm": {"sweep": [st, wf, c, list(pyflags)]},
                          "incarnations": [{"state": st, "write_fault": False, "hashseed": 0, "items": idxs[:2], "crash_at": pyflags[1]},
                                           {"state": "keep", "write_fault": False, "hashseed": 0, "items": idxs, "sequential": True}]}
